@@ -209,7 +209,9 @@ goroutines calling any sequences of the documented functions never reach a state
 with a data race on a shared location outside `allowedUnguarded` — in particular
 none on the worksheet grid, columns, data validations, drawing reference, the
 style tables, the shared-string table and its index map, the calculation chain,
-content-type and drawing-anchor lists. -/
+content-type and drawing-anchor lists, and the media / drawing part lists (the
+scan-then-store sequences in `addMedia`, `countDrawings`, `drawingLoader`, whose
+footprint on the `sync.Map`s is hand-assigned in the extractor). -/
 theorem documented_race_free (threads : List (List String))
     (h : ∀ th ∈ threads, ∀ f ∈ th, f ∈ api) {s : Sys String Loc}
     (r : Reach (initSys (threads.map threadOf)) s) (x : Loc)
@@ -224,7 +226,8 @@ names (non-vacuity of `hx`) -/
 theorem covered_locations :
     [("Ws", "SheetData"), ("Ws", "Cols"), ("Ws", "DataValidations"), ("Ws", "Drawing"),
      ("Styles", "tables"), ("Sst", "SI"), ("File", "sharedStringsMap"), ("File", "SharedStrings"),
-     ("File", "CalcChain"), ("CalcChain", "C"), ("ContentTypes", "list"), ("Drawing", "anchors")].all
+     ("File", "CalcChain"), ("CalcChain", "C"), ("ContentTypes", "list"), ("Drawing", "anchors"),
+     ("File", "mediaParts"), ("File", "drawingParts")].all
       (fun x => !allowedUnguarded.contains x) = true := by decide
 
 /-! ### critical sections of the setters (linearization points) -/
